@@ -201,6 +201,9 @@ pub struct IoRec {
     pub stdout_eintr: u64,
     pub stdout_failed_writes: u64,
     pub stderr_writes: u64,
+    /// Input bytes read after the injected stop event (None: none injected).
+    #[serde(default)]
+    pub input_bytes_after_stop: Option<u64>,
 }
 
 #[derive(Serialize, Deserialize, Clone, Debug)]
